@@ -407,6 +407,51 @@ def r2_walk(program, folder, rep):
             "binop", "Add", ("const", 1), ("param", formals(ch)[0]))), ()))
     okr = okr and plain(H.term(step_l.iter, H.cfg.loop_head[id(step_l)])) \
         == ("call", ("global", "range"), (plain(RING),), ())
+    if not okr:
+        # the same rings counted some other way: range(a, b) with b - a the
+        # radius and e - a + 1 steps per side in the ring numbered e (both
+        # polynomials, so agreeing at degree + 1 values is agreeing everywhere)
+        from ..terms import eval_closed, subst_params
+        stp = plain(H.term(step_l.iter, H.cfg.loop_head[id(step_l)]))
+        if rp[0] == "call" and rp[1] == ("global", "range") and \
+                1 <= len(rp[2]) <= 2 and not rp[3] and stp[0] == "call" and \
+                stp[1] == ("global", "range") and len(stp[2]) == 1 and \
+                not stp[3]:
+            lo_t = rp[2][0] if len(rp[2]) == 2 else ("const", 0)
+            hi_t = rp[2][-1]
+
+            def repl(t, old, new):
+                if t == old:
+                    return new
+                if not isinstance(t, tuple) or not t or t[0] == "const":
+                    return t
+                return tuple(repl(x, old, new) if isinstance(x, tuple) else x
+                             for x in t)
+
+            def affine(t):
+                # terms built from + - * and constants over one unknown
+                return all(st[0] in ("const", "param", "elem", "call",
+                                     "global") or
+                           (st[0] == "binop" and st[1] in ("Add", "Sub",
+                                                           "Mult"))
+                           for st in subterms(t) if isinstance(st, tuple))
+            try:
+                lo = eval_closed(lo_t)
+                okr = isinstance(lo, int) and affine(hi_t) and \
+                    affine(stp[2][0])
+                deg = 2 + sum(1 for st in subterms(("tuple", hi_t,
+                                                     stp[2][0]))
+                              if st[0] == "binop" and st[1] == "Mult")
+                for r_ in range(deg):
+                    sub = {formals(ch)[0]: ("const", r_)}
+                    okr = okr and eval_closed(
+                        subst_params(hi_t, sub)) - lo == r_
+                for e_ in range(lo, lo + deg):
+                    okr = okr and eval_closed(repl(
+                        stp[2][0], plain(RING), ("const", e_))) == \
+                        e_ - lo + 1
+            except AnalysisError:
+                okr = False
     # the walk: one unit south on entering a ring, then the side's direction
     # at every step
     ys = [n for n in ast.walk(ch) if isinstance(n, ast.Yield)]
@@ -788,6 +833,14 @@ def r3_closed_forms(program, folder, rep):
             good = [m_ for m_ in found if m_[0] == "binop" and
                     m_[1] == "FloorDiv" and m_[3] == S and
                     _lin(f2b, m_[2]) == _lin(f2b, want_t[2])]
+            if neg and not good:
+                # -(-v // s): the ceiling of v / s, which is the quotient
+                # truncated toward zero for a negative v
+                good = [m_ for m_ in found if m_[0] == "unop" and
+                        m_[1] == "USub" and m_[2][0] == "binop" and
+                        m_[2][1] == "FloorDiv" and m_[2][3] == S and
+                        _lin(f2b, m_[2][2]) == _lin(f2b, ("unop", "USub",
+                                                          plain(Vt)))]
             if not found:
                 raise AnalysisError("shortest_torus_path: the number of "
                                     "spirals along %s is not drawn as "
